@@ -262,3 +262,17 @@ Fixpoint walk (c : cfg) (nsub n : nat) (rng : Z) (s : state) : bool * bool * nat
         else (false, true, O)
       end
   end.
+
+Definition cfg_r0 : cfg := mkCfg 0%nat false true 1000000 104847360 3 0 true 2 [] true true.
+Definition walks_ok (c : cfg) (nsub n : nat) (seeds : nat) : bool :=
+  forallb (fun sd => let '(a, b, _) := walk c nsub n (Z.of_nat sd * 7919 + 1) init in a && b) (seq 0 seeds).
+
+(* 4 x 100 pseudo-random walks (arbitrary interleavings of every enabled actor, good and bad answers, failing
+   connections, failing and moving leader lookups, 6 submissions over 2 partitions and up to 3 broker workers,
+   then AsyncClose): no panic is met and EVERY visited state can complete within mu.  (Before the repair
+   fixes/c01_newhwm_nil_broker_producer.patch was modelled, this check is what found the nil-broker-worker
+   panic of newHighWatermark: a visited state from which the good environment ran into panic 111.) *)
+Example walks_can_complete :
+  walks_ok cfg_timer 6 400 100 = true /\ walks_ok cfg_idem2 6 400 100 = true /\
+  walks_ok (cfg_ic true) 6 400 100 = true /\ walks_ok cfg_r0 6 400 100 = true.
+Proof. vm_compute. repeat split; reflexivity. Qed.
